@@ -397,6 +397,13 @@ Section Dynamics.
       rewrite ofZ_add. destruct (lname_eq_dec k X); [reflexivity|]. rewrite ofZ_0. reflexivity.
   Qed.
 
+  Lemma coef_at_CZ' env rx (d : list (lname * Z)) X :
+    lr_stoich rx = map (fun kz => (fst kz, CZ (snd kz))) d -> CoefAt env rx X = ofZ (tc d X).
+  Proof.
+    intro H. rewrite <- (coef_at_CZ env (lr_name rx) (lr_fn rx) (lr_args rx) d X).
+    unfold coef_at. cbn [lr_stoich]. rewrite H. reflexivity.
+  Qed.
+
   Section Collapse.
     Variable nl : N -> nat.
     Variable g : list bool -> R.
@@ -416,7 +423,6 @@ Section Dynamics.
         intros bits _. unfold ofNat. cbn. rewrite ofZ_0. ring.
       - apply Forall_cons_iff in Hwf. destruct Hwf as [Hq Hwf]. cbn [fst snd] in Hq.
         cbn [map fst snd]. rewrite s_cons, <- (IH Hwf). clear IH.
-        rewrite <- s_add. 
         destruct (N.eq_dec c' c) as [->|Hne].
         + rewrite <- (sum_indicator R rO rI radd rmul rsub ropp Rth (list_eq_dec Bool.bool_dec) g q (all_patterns (nl c)))
             by (try apply all_patterns_NoDup; apply all_patterns_complete; exact Hq).
@@ -425,10 +431,11 @@ Section Dynamics.
           * apply iso_name_inj in Heq. destruct Heq as [_ ->].
             destruct (list_eq_dec Bool.bool_dec bits bits); [|contradiction]. rewrite ofN_S. ring.
           * destruct (list_eq_dec Bool.bool_dec q bits) as [->|]; [contradiction|]. ring.
-        + apply s_ext. intros bits _. cbn [count_occ].
+        + match goal with |- _ = 0 + ?S => replace (0 + S) with S by ring end.
+          apply s_ext. intros bits _. cbn [count_occ].
           destruct (lname_eq_dec (iso_name c' q) (iso_name c bits)) as [Heq|Hneq].
           * apply iso_name_inj in Heq. destruct Heq as [Hc _]. contradiction.
-          * ring.
+          * reflexivity.
     Qed.
   End Collapse.
 
@@ -496,11 +503,108 @@ Section Dynamics.
       pose proof (subpairs_wf p Hp) as Hws.
       rewrite <- (collapse_g nl g _ c Hwp), <- (collapse_g nl g _ c Hws), <- s_sub.
       rewrite <- s_scale_r. apply s_ext. intros bits _.
-      unfold coef_at. rewrite mk_iso_rxn_stoich. fold (CoefAt env (mkLR (lr_name (mk_iso_rxn lv r (sfx p) (psfx p)))
-        (lr_fn (mk_iso_rxn lv r (sfx p) (psfx p))) (lr_args (mk_iso_rxn lv r (sfx p) (psfx p)))
-        (map (fun kz => (fst kz, CZ (snd kz))) (repack (map (fun cq => iso_name (fst cq) (snd cq)) (subpairs p))
-                    (map (fun cq => iso_name (fst cq) (snd cq)) (prodpairs p))))) (iso_name c bits)).
-      rewrite coef_at_CZ, tc_repack, ofZ_minus. unfold ofNat. ring.
+      rewrite (coef_at_CZ' env _ _ (iso_name c bits) (mk_iso_rxn_stoich p)).
+      rewrite tc_repack, ofZ_minus. unfold ofNat. ring.
+    Qed.
+
+    (** ---- mass action: k * product of the substrates, each substrate compound once ------------- *)
+    Variable extra : list N.                       (* the non-substrate arguments (rate constants) *)
+    Hypothesis Hfn : r_fn r = FProd.
+    Hypothesis Hargs : Permutation (r_args r) (bs ++ extra).
+    Hypothesis Hnd_st : NoDup (map fst (r_stoich r)).
+    Hypothesis Hnd_bs : NoDup bs.                  (* DistinctSubstrates *)
+    Hypothesis Hextra : forall a, In a extra -> ~ In a bs /\ ~ In a bp /\ nl a = O.
+
+    Let ren ns np := fun k => match getN k (replacements bs ns bp np) with Some v => v | None => LPlain k end.
+
+    Lemma rename_subs ns np : length ns = length bs -> map (ren ns np) bs = ns.
+    Proof.
+      intro Hl. apply map_via_combine; [lia|]. intros k v Hin. unfold ren, replacements, getN.
+      rewrite dict_update_notin.
+      - rewrite (dict_update_in N.eq_dec k v); [reflexivity| |exact Hin].
+        rewrite map_fst_combine by lia. exact Hnd_bs.
+      - intro H. apply in_combine_fst in H. apply in_combine_l in Hin.
+        exact (subs_prods_disjoint _ _ Hnd_st Hin H).
+    Qed.
+
+    Lemma rename_extra ns np : map (ren ns np) extra = map LPlain extra.
+    Proof.
+      apply map_ext_in. intros a Ha. destruct (Hextra a Ha) as [H1 [H2 _]]. unfold ren, replacements, getN.
+      rewrite !dict_update_notin; [reflexivity| |]; intro H; apply in_combine_fst in H; contradiction.
+    Qed.
+
+    Lemma rate_mass_action p :
+      Rate env (mk_iso_rxn lv r (sfx p) (psfx p))
+      = prod (map env (map (fun cq => iso_name (fst cq) (snd cq)) (subpairs p)))
+        * prod (map (fun a => env (LPlain a)) extra).
+    Proof.
+      unfold rate. cbn [lr_fn lr_args mk_iso_rxn]. rewrite Hfn. cbn [fsem]. unfold rename_args.
+      fold bs. fold bp. fold lps. fold lpp.
+      set (ns := assign_labels bs (split_label (sfx p) lps)).
+      set (np := assign_labels bp (split_label (psfx p) lpp)).
+      fold (ren ns np). rewrite map_map.
+      rewrite (prod_perm R rO rI radd rmul rsub ropp Rth _ (map (fun k => env (ren ns np k)) (bs ++ extra)))
+        by (apply Permutation_map; exact Hargs).
+      rewrite map_app, p_app. rewrite <- (map_map (ren ns np) env bs), <- (map_map (ren ns np) env extra).
+      rewrite rename_extra, rename_subs.
+      - rewrite map_map. reflexivity.
+      - unfold ns, assign_labels. rewrite map_length, combine_length, split_label_length.
+        unfold lps, labels_per. rewrite map_length. lia.
+    Qed.
+
+    Definition benv (a : N) : R := sum (map (fun q => env (iso_name a q)) (all_patterns (nl a))).
+
+    Lemma subpairs_W p :
+      In p (all_patterns tsl) ->
+      prod (map env (map (fun cq => iso_name (fst cq) (snd cq)) (subpairs p)))
+      = W R rI rmul nl (fun c q => env (iso_name c q)) bs p.
+    Proof.
+      intro Hp. apply all_patterns_length in Hp. unfold W, subpairs, sfx, suffix_of. rewrite map_map.
+      unfold lps, labels_per. fold nl. rewrite split_label_prefix; [reflexivity|].
+      unfold tsl, lps, labels_per in Hp. fold nl in Hp. lia.
+    Qed.
+
+    Lemma sum_rates :
+      sum (map (fun p => Rate env (mk_iso_rxn lv r (sfx p) (psfx p))) (all_patterns tsl))
+      = prod (map benv bs) * prod (map (fun a => env (LPlain a)) extra).
+    Proof.
+      rewrite (s_ext _ _ (fun p => W R rI rmul nl (fun c q => env (iso_name c q)) bs p
+                                   * prod (map (fun a => env (LPlain a)) extra))).
+      - rewrite s_scale_r. unfold tsl, lps, labels_per. fold nl.
+        rewrite (sum_prod_patterns R rO rI radd rmul rsub ropp Rth nl (fun c q => env (iso_name c q)) bs).
+        reflexivity.
+      - intros p Hp. rewrite rate_mass_action, subpairs_W by exact Hp. reflexivity.
+    Qed.
+
+    Lemma base_rate : prod (map benv (r_args r)) = prod (map benv bs) * prod (map (fun a => env (LPlain a)) extra).
+    Proof.
+      rewrite (prod_perm R rO rI radd rmul rsub ropp Rth _ (map benv (bs ++ extra)))
+        by (apply Permutation_map; exact Hargs).
+      rewrite map_app, p_app. f_equal. f_equal. apply map_ext_in. intros a Ha.
+      destruct (Hextra a Ha) as [_ [_ H0]]. unfold benv. rewrite H0. cbn [all_patterns map iso_name].
+      rewrite s_cons. change (sum []) with 0. ring.
+    Qed.
+
+    (** C05, dynamics of one mapped mass-action reaction: the derivatives of c's isotopomers sum to
+        (base coefficient of c) * (base rate evaluated at the isotopomer totals) *)
+    Theorem dynamics_collapse_rxn c rxns :
+      create_iso_rxns ext_bit lv r lmap = Ok rxns ->
+      tpl <= length lmap ->
+      sum (map (fun bits => Deriv env rxns (iso_name c bits)) (all_patterns (nl c)))
+      = ofZ (match getN c (r_stoich r) with Some v => v | None => 0%Z end) * prod (map benv (r_args r)).
+    Proof.
+      intros Hc Hl.
+      rewrite (s_ext _ _ (fun bits => (fun _ => 1) bits * Deriv env rxns (iso_name c bits)))
+        by (intros; ring).
+      rewrite (weighted_collapse (fun _ => 1) c rxns Hc Hl).
+      pose proof (create_ok_shape _ _ _ _ _ Hc) as [_ [_ Hs]].
+      rewrite (s_ext _ _ (fun p => (ofN (count_occ N.eq_dec bp c) - ofN (count_occ N.eq_dec bs c))
+                                   * Rate env (mk_iso_rxn lv r (sfx p) (psfx p)))).
+      - rewrite s_scale, sum_rates, base_rate.
+        rewrite <- (net_stoichiometry _ c Hnd_st), ofZ_minus. reflexivity.
+      - intros p Hp. unfold prodpairs, subpairs. rewrite !Gsum_one; [reflexivity| |].
+        + rewrite split_label_length. unfold lps, labels_per. rewrite map_length. reflexivity.
+        + rewrite split_label_length. unfold lpp, labels_per. rewrite map_length. reflexivity.
     Qed.
   End OneReaction.
 End Dynamics.
